@@ -1,6 +1,6 @@
 (* C19 -- lemmas, part 1: well-formed chains, closed form of the permanent store, the invariant and
    its preservation, the abstraction function. *)
-From Coq Require Import ZArith NArith List Bool Lia.
+From Coq Require Import ZArith NArith List Bool Lia ZifyBool ZifyNat.
 From MV Require Import C19.Model.
 Import ListNotations.
 Open Scope Z_scope.
@@ -111,8 +111,7 @@ Proof.
   { destruct r as [|b' r']; [reflexivity|]. simpl in H. destruct H as (_ & H1 & _).
     unfold t_h, temp_of_block, full, fv, block_map. simpl. apply Z.leb_gt. lia. }
   rewrite Hold. unfold perm_closed. f_equal.
-  - unfold temp_of_block; simpl. destruct (block_proof b); reflexivity.
-  - unfold temp_of_block; simpl. destruct (block_policy b); reflexivity.
+  unfold temp_of_block; simpl. destruct (block_proof b); reflexivity.
 Qed.
 
 Lemma ghost_store_of_chain : forall pc, s_ghost (store_of_chain pc) = pc.
@@ -171,8 +170,8 @@ Proof.
   - exists (b :: tb), pc. simpl. rewrite Ht. repeat split; auto.
     destruct (tb ++ pc) as [|b0 l] eqn:El; [exact I|].
     apply andb_false_iff in E. destruct E as [E|E].
-    + pose proof (consec_nonneg _ Hc b0 (or_introl eq_refl)). apply Z.gtb_ltb in E. apply Z.ltb_ge in E. lia.
-    + apply negb_false_iff in E. apply Z.eqb_eq in E. exact E.
+    + pose proof (consec_nonneg _ Hc b0 (or_introl eq_refl)). lia.
+    + lia.
 Qed.
 
 Lemma last_map : forall A B (f : A -> B) l d, last (map f l) (f d) = f (last l d).
@@ -182,8 +181,9 @@ Lemma remove_nth_last : forall A (l : list A), l <> [] -> remove_nth (length l -
 Proof.
   induction l as [|a l IH]; intros H; [congruence|].
   destruct l as [|a' l']; [reflexivity|].
-  change (length (a :: a' :: l') - 1)%nat with (S (length (a' :: l') - 1)).
-  - simpl remove_nth. rewrite IH by discriminate. reflexivity.
+  replace (length (a :: a' :: l') - 1)%nat with (S (length (a' :: l') - 1)) by (simpl; lia).
+  change (remove_nth (S (length (a' :: l') - 1)) (a :: a' :: l')) with (a :: remove_nth (length (a' :: l') - 1) (a' :: l')).
+  rewrite IH by discriminate. reflexivity.
 Qed.
 
 (* in a consecutive chain the bottom of the first n blocks is n-1 below the top *)
@@ -235,12 +235,14 @@ Qed.
 
 Lemma Inv_remove : forall c h, Inv c -> Inv (fst (step_remove c h)).
 Proof.
-  intros c h (tb & pc & Ht & Hp & Hc). unfold step_remove.
-  destruct (c_temps c) as [|t0 tl] eqn:E; [exists tb, pc; rewrite E; auto|].
-  destruct (h >? t_h t0); [exists tb, pc; rewrite E; auto|].
-  destruct (index_of_height h (t0 :: tl)) as [i|]; [|exists tb, pc; rewrite E; auto].
-  simpl fst. exists (skipn (S i) tb), pc. cbn [c_temps c_perm].
-  split; [rewrite Ht, skipn_map; reflexivity|]. split; [exact Hp|].
+  intros c h (tb & pc & Ht & Hp & Hc).
+  assert (Hsame : Inv c) by (exists tb, pc; auto).
+  unfold step_remove. rewrite Ht.
+  destruct (map temp_of_block tb) as [|t0 tl] eqn:E; [exact Hsame|].
+  destruct (h >? t_h t0); [exact Hsame|].
+  destruct (index_of_height h (t0 :: tl)) as [i|]; [|exact Hsame].
+  cbn [fst]. exists (skipn (S i) tb), pc. cbn [c_temps c_perm].
+  split; [rewrite <- E, skipn_map; reflexivity|]. split; [exact Hp|].
   rewrite <- (firstn_skipn (S i) tb), <- app_assoc in Hc. eapply consec_app_r. exact Hc.
 Qed.
 
@@ -338,8 +340,8 @@ Proof.
   assert (Habs := Inv_abs _ _ _ Ht Hp).
   unfold step_remove. rewrite Ht.
   destruct tb as [|b0 tb']; [reflexivity|].
-  change (map temp_of_block (b0 :: tb')) with (temp_of_block b0 :: map temp_of_block tb') at 1.
-  cbv iota. destruct (h >? t_h (temp_of_block b0)); [reflexivity|].
+  cbn [map]. destruct (h >? t_h (temp_of_block b0)); [reflexivity|].
+  change (temp_of_block b0 :: map temp_of_block tb') with (map temp_of_block (b0 :: tb')).
   destruct (index_of_height h (map temp_of_block (b0 :: tb'))) as [i|] eqn:Ei; [|reflexivity].
   cbn [fst snd].
   destruct (index_of_height_spec _ _ _ Ei) as (b & Hn & Hh).
